@@ -514,6 +514,9 @@ inductive Label
   | result (f : Fut) (r : Res)
   | inbound (p : Peer)
   | inboundFailed (p : Peer)
+  /-- the local record store changed otherwise (`store_record`, an inbound `PUT_VALUE` stored in automatic
+  validation mode, an expired record dropped): `keys` are the live keys now -/
+  | setStored (keys : List Nat)
   deriving Repr, Inhabited
 
 /-- One step; `none` only for an engine action the engine cannot produce. -/
@@ -528,6 +531,7 @@ def step (s : State) : Label → Option State
   | .result f r => some (execResult s f r)
   | .inbound p => some (inbound s p)
   | .inboundFailed p => some (inboundFailed s p)
+  | .setStored keys => some { s with stored := keys }
 
 /-- Run a schedule; labels the engine cannot produce are skipped. -/
 def run (s : State) : List Label → State
